@@ -1418,7 +1418,9 @@ def run_deform(desc):
                 continue
             eps_val = float(np.finfo(xv.dtype).eps)
             tol = abs(fj) * ((16 + 2 ** ndim) * eps_val * (mag + fmax) +
-                             2 * dt * fmax) + 1e-300
+                             2 * dt * fmax) + 1e-300 + \
+                (4 + 2 ** ndim) * max(1.0, abs(fj)) * float(
+                    np.finfo(xv.dtype).smallest_subnormal)
             err = min(abs(float(g) - float(fj) * float(a)) for a in alts)
             if not err <= tol:
                 raise Violation(
